@@ -89,9 +89,11 @@ pub fn run(args: &[String]) -> i32 {
                     }
                     // a first line that is the optional identifier / account line ([/34x] etc.) must not
                     // end up among the name-and-address lines
-                    if c["first"] == "idline" {
-                        let line1 = content.split('\n').next().unwrap_or("");
-                        if line1.starts_with('/') && content.contains('\n') {
+                    let idl = c["idl"].as_u64().unwrap_or(if c["first"] == "idline" { 1 } else { 0 }) as usize;
+                    if idl > 0 {
+                        let line1 = content.split('\n').nth(idl - 1).unwrap_or("");
+                        // (a slash line in last position is the last line of the field, e.g. a BIC line's place)
+                        if line1.starts_with('/') && content.split('\n').count() > idl {
                             let mut in_arrays = false;
                             fn scan(v: &Value, line1: &str, found: &mut bool) {
                                 match v {
